@@ -122,7 +122,7 @@ func runLongS(c *longCase) *finding {
 	l := s.l
 	pre := "S/long/"
 	adv := l.ConnSendAllowance()
-	defer func() { collectStats(l, "S"); run.Add("handler-starts", s.starts) }()
+	defer func() { collectStats(l, "S"); run.Add("handler-starts", s.nStarts()) }()
 	keyBase := uint64(rng.Int63())
 	fates := []string{"complete", "complete", "peer-reset", "server-abort", "ignored", "closed-early"}
 	type ls struct {
@@ -289,7 +289,7 @@ func runLongT(c *longCase) *finding {
 	l := t.l
 	pre := "T/long/"
 	adv := l.ConnSendAllowance()
-	defer func() { collectStats(l, "T"); run.Add("transport-requests", t.starts) }()
+	defer func() { collectStats(l, "T"); run.Add("transport-requests", t.nStarts()) }()
 	l.WindowUpdate(0, 1<<20)
 	keyBase := uint64(rng.Int63())
 	fates := []string{"complete", "complete", "client-close", "client-cancel", "peer-reset", "ignored", "early-response"}
@@ -352,6 +352,22 @@ func runLongT(c *longCase) *finding {
 					return &finding{class: pre + v[0].Kind, msg: v[0].Msg}
 				}
 				if os.Getenv("VERIF_C12_DEBUG") != "" {
+					evs := l.P.Events()
+					for _, e := range evs[max(0, len(evs)-30):] {
+						fmt.Fprintln(os.Stderr, "EV", e.String(), e.HeadersErr)
+					}
+					for _, b := range batch {
+						select {
+						case <-b.q.done:
+							fmt.Fprintln(os.Stderr, "REQ", b.idx, b.fate, "done err=", b.q.err)
+						default:
+							fmt.Fprintln(os.Stderr, "REQ", b.idx, b.fate, "running")
+						}
+					}
+					for _, id := range l.StreamIDs() {
+						x := l.Stream(id)
+						fmt.Fprintln(os.Stderr, "STREAM", id, x.Headers, x.Ended, x.ImplReset)
+					}
 					buf := make([]byte, 1<<22)
 					os.Stderr.Write(buf[:runtime.Stack(buf, true)])
 				}
